@@ -80,6 +80,12 @@ func NewChainDataBase(home string) *ChainDatabase {
 		panic("get candidates err: " + err.Error())
 	} else {
 
+		// The candidates index must know all candidates again, like on a node which was never restarted. A full re-rank (when a listed candidate
+		// unregisters or loses votes) reads it, and with an empty index a restarted node publishes another top list than the other nodes
+		for _, val := range candidates {
+			db.LastConfirm.CandidateTrieDB.Set(val)
+		}
+
 		// 把票数为0的candidate筛选掉，默认票数为0的candidate为注销的candidate
 		newCandidate := make([]*Candidate, 0, len(candidates))
 		for _, val := range candidates {
